@@ -120,6 +120,8 @@ class Unit:
         interp = Interp(self.name, loops=self.loops, contextmanager=self.contextmanager,
                         drop=self.drop, local_types=self.local_types)
         interp.on_yield = self.on_yield
+        interp.relpath = self.relpath
+        self._last_interp = interp
         b = Builder(interp)
         b.node = node
         self.setup(b)
@@ -198,6 +200,15 @@ def run_unit(unit, second_solver=False, timeout_ms=None):
     except Unsupported as e:
         out['status'] = 'undecided'
         out['error'] = f'Unsupported: {e}'
+        # obligations generated before the engine gave up are still decided (a refuted one is reported)
+        interp = getattr(unit, '_last_interp', None)
+        if interp is not None and interp.obligations:
+            try:
+                for v in solve.prove_all(interp.obligations, timeout_s=5):
+                    if v.status == 'refuted':
+                        out['verdicts'].append(v.as_dict())
+            except Exception:
+                pass
     except source.SelectorError as e:
         out['status'] = 'undecided'
         out['error'] = f'Selector: {e}'
